@@ -193,9 +193,7 @@ func Float2(x, y float64) float64 {
 func Bool2(x, y bool) bool { called(); return x && !y }
 func Str2(x, y *string) *string {
 	called()
-	if x == nil && y == nil {
-		return nil
-	}
+	// (two nulls give a value, not null: a function is asked about every row, also about rows that hold nothing)
 	if x != nil && y != nil && *x == *y {
 		return y // the very pointer that was passed in
 	}
